@@ -274,6 +274,13 @@ def one(ck, cls):
         body_keys = [k_ for k_ in (g.site_of(x) for x in walk(loop.get("body") or {}) if isinstance(x, dict) and x.get("k") in ("call", "binop", "unop")) if k_ is not None]
         if body_keys:
             free = [k_ for k_ in body_keys if not lf_.held_at(k_, M)]
+            if not free:
+                # a scope guard of the repository that gives the mutex away in its constructor (struct Unlocked { Unlocked(l) { l.unlock(); } ~Unlocked() { l.relock(); } })
+                for x in walk(loop.get("body") or {}):
+                    if isinstance(x, dict) and x.get("k") == "construct" and F.fns.get(x.get("fn")) is not None and F.fns[x["fn"]].body is not None:
+                        ct_ = F.fns[x["fn"]]
+                        if any(strip_tmpl(c_.get("callee") or "").split("::")[-1] == "unlock" for c_ in ct_.calls()):
+                            free = [g.site_of(x) or True]
             ck.ob("C04-O6", sitestr(rs, loop["cond"]), bool(free), "%s: the hand-off mutex is released inside every iteration of the drain loop" % tag if free else
                   "%s: the drain loop waits for the pending count with the hand-off mutex held all the time: a handler that logs through the same logger while the worker delivers a backlog message "
                   "blocks in process() on the worker thread, its message stays pending, the count never reaches 0 and the stop never returns" % tag, key="resetOwnThread|drain-holds-mutex")
